@@ -426,6 +426,12 @@ let rec nth n0 l default =
               | _ :: t0 -> nth m t0 default)
     n0
 
+(** val rev : 'a1 list -> 'a1 list **)
+
+let rec rev = function
+| [] -> []
+| x :: l' -> app (rev l') (x :: [])
+
 (** val map : ('a1 -> 'a2) -> 'a1 list -> 'a2 list **)
 
 let rec map f = function
@@ -2600,6 +2606,16 @@ let rec prod0 = function
 | [] -> Stdlib.Int.succ 0
 | d :: ds -> mul d (prod0 ds)
 
+(** val flat : int list -> int list -> int **)
+
+let rec flat dims idx =
+  match dims with
+  | [] -> 0
+  | _ :: ds ->
+    (match idx with
+     | [] -> 0
+     | i :: is -> add (mul i (prod0 ds)) (flat ds is))
+
 (** val unflat : int list -> int -> int list **)
 
 let rec unflat dims p =
@@ -2726,6 +2742,21 @@ let rv_write op idx rhs a =
 let filter_write op mask0 rhs n0 a =
   fold_left (fun b p -> if mask0 p then upd1 b p (op (b p) (rhs p)) else b)
     (seq 0 n0) a
+
+(** val rm_of_counter : int list -> int -> int **)
+
+let rm_of_counter dims c =
+  flat dims (rev (unflat (rev dims) c))
+
+(** val torowmajor : int list -> (int -> 'a1) -> int -> 'a1 **)
+
+let torowmajor dims a c =
+  if Nat.ltb c (prod0 dims) then a (rm_of_counter dims c) else a c
+
+(** val tocolumnmajor : int list -> (int -> 'a1) -> int -> 'a1 **)
+
+let tocolumnmajor dims a =
+  scatter (rm_of_counter dims) (fun c _ -> a c) (prod0 dims) a
 
 (** val run_matmul_Z :
     cfg -> ety -> int -> int -> int -> z list -> z list -> z list **)
@@ -2988,3 +3019,13 @@ let run_idx_range_it ncols d r it1 =
   let (f, l) = p in
   idx_range_it ncols
     (to_nrange (normnd (Z.of_nat d) { uf = f; ul = l; us = s })) it1
+
+(** val run_torowmajor : int list -> int list **)
+
+let run_torowmajor dims =
+  map (torowmajor dims (fun p -> p)) (seq 0 (prod0 dims))
+
+(** val run_tocolumnmajor : int list -> int list **)
+
+let run_tocolumnmajor dims =
+  map (tocolumnmajor dims (fun p -> p)) (seq 0 (prod0 dims))
